@@ -54,7 +54,8 @@ def floors(tier):
             'contract:parent.inverse': 2000, 'contract:json.roundtrip': 2000,
             'contract:relpath.inverse': 1000, 'contract:eq.hash': 2000,
             'law:string': 2000, 'law:append': 5000, 'law:commonprefix': 300,
-            'law:uniquetrees': 300, 'distinct_nontrivial': 5000}
+            'law:uniquetrees': 300, 'distinct_nontrivial': 5000,
+            'suite-contract:init.normal': 1000}
 
 
 # --------------------------------------------------------------------------
@@ -100,6 +101,12 @@ def random_strings(rng, count):
 
 
 def cases(tier, seed):
+    # the repository's own unit tests as one more workload for the contracts
+    yield {'kind': 'suite', 'flavor': '-', 'root': '-', 'strings': [],
+           'tests': (['test/unit/test_path.py', 'test/unit/platforms',
+                      'test/unit/builtins/test_path.py', 'test/unit/builtins/test_install.py',
+                      'test/unit/builtins/test_find.py', 'test/unit/test_glob.py']
+                     if tier == 'quick' else ['test/unit'])}
     maxn = 3 if tier == 'quick' else 4
     strings = list(all_strings(maxn))
     rng = core.rng_for(seed, 'c12')
@@ -232,7 +239,41 @@ def expected_string(flavor, strs, rootname, suffix):
     return ntpath.normpath(joined.replace('/', '\\'))
 
 
+def run_suite_case(case):
+    """Run (part of) the project's own test suite with the Path contracts
+    attached inside the pytest process (vf/inject/sitecustomize.py)."""
+    import json
+    import os
+    res = CaseResult()
+    monlog = os.path.join(core.mkscratch('c12suite'), 'monlog')
+    env = core.base_env({'BFG9000_VERIF_ROLE': 'pytest',
+                         'BFG9000_VERIF_MONLOG': monlog}, inject=True, monitors='pathlaws')
+    rc, out = core.run([core.PY, '-m', 'pytest', '-q', '-p', 'no:cacheprovider',
+                        '--continue-on-collection-errors', '-q'] + case['tests'],
+                       cwd=core.REPO, env=env, timeout=900)
+    res.evaluations = 1
+    res.key(['suite'] + case['tests'], True)
+    try:
+        with open(monlog) as f:
+            reports = [json.loads(line) for line in f]
+    except OSError:
+        res.inconclusive = 'no monitor report from the pytest process: ' + out[-300:]
+        return res
+    for rep in reports:
+        for law, n in rep.get('evals', {}).items():
+            res.ev('suite-contract:' + law, n)
+        for law, detail in rep.get('violations', []):
+            res.violate(('contract-in-own-test-suite', law),
+                        dict(detail, tests=case['tests']))
+    res.sample = {'kind': 'suite', 'tests': case['tests'],
+                  'contract_evaluations': sum(sum(r.get('evals', {}).values())
+                                              for r in reports)}
+    return res
+
+
 def run_case(case):
+    if case.get('kind') == 'suite':
+        return run_suite_case(case)
     core.use_repo_in_process()
     from ..mon import pathlaws
     pathlaws.install()
